@@ -50,6 +50,7 @@ struct Session {
     std::mutex logm;
     std::vector<std::string> log;
     int pfalse = 0;           // stress: per-mille of false answers
+    int step_us = 0;          // stress: pause inside filtering_step
     std::mt19937_64 thr_rng;
 
     void ev(const std::string& s) { std::lock_guard<std::mutex> lk(logm); log.push_back(s); }
@@ -58,7 +59,10 @@ struct Session {
     bool point(int k) {
         int md = mode.load();
         if (md == Stress) {
-            if (k == 5) ev("exit");
+            // the final store run_ = false lies between points 5 and 6: both are logged; the driver places
+            // EExit at "final5" and ignores is_running() answers obtained in the ambiguous window
+            if (k == 5) ev("final5");
+            if (k == 6) ev("exit");
             if (k == 9) return pfalse == 0 ? true : (int)(thr_rng() % 1000) >= pfalse;
             return true;
         }
@@ -103,7 +107,11 @@ struct Probe : public FilteringAlgorithm {
     bool skip(const std::string&, const bool) override { return false; }
 protected:
     bool initialization_step() override { s->ev("init"); s->point(7); return true; }
-    void filtering_step() override { s->ev("step" + std::to_string(step_number())); s->point(8); }
+    void filtering_step() override {
+        s->ev("step" + std::to_string(step_number()));
+        s->point(8);
+        if (s->step_us > 0) std::this_thread::sleep_for(std::chrono::microseconds(s->step_us));
+    }
     bool run_condition() override { return s->point(9); }
 };
 
@@ -271,6 +279,7 @@ static void run_stress(const vf::Case& c) {
     Session* S = new Session();
     S->mode.store(Session::Stress);
     S->pfalse = (int)c.mi("pfalse", 0);
+    S->step_us = (int)c.mi("step_us", 20);
     unsigned long seed = (unsigned long)c.mi("seed", 1);
     S->thr_rng.seed(seed * 7919 + 13);
     g_session = S;
